@@ -246,7 +246,7 @@ MANIFEST_TEXT = {
         "design_ref": "DESIGN.md §3 C07",
         "level_text": ("Fault enumeration: for each sampled history every file-system operation boundary is a crash point and is expanded into "
                        "process / machine-strict / machine-torn images which are reopened with the real store and real Pebble recovery and "
-                       "compared with the admissible states of the reference model. Histories are sampled (seeded search); crash points per history are exhaustive."),
+                       "compared with the admissible states of the reference model. Histories are sampled (seeded search); crash points per history are exhaustive, with two stated exceptions: histories that contain a bulk load (a thousand and more signatures, every image costly) keep every API-call boundary, every point inside an index rebuild and about a hundred seeded points, and in the quick tier a history with more than 700 file-system operations is sampled at 500 points."),
         "level_note": "Trusts: SimDisk crash semantics (strict = Pebble's StrictMem; torn = ordered prefixes), assumption A1, the reference model; Pebble's own recovery is exercised, not assumed.",
     },
     "C06": {
